@@ -353,6 +353,9 @@ def run_c06(tier, seed, t0, replay_item=None):
         items = []
         for i, (gname, steps) in enumerate(behs):
             cfg, cc, pool = conc.concretise(rng, steps, plain_bias=0.6, allow_pgp=(tier == "thorough" and i % 4 == 0), small=True)
+            if i < len(conc.COMPRESSIONS):
+                # every compression format at least once per run, without encryption (decoders differ in how they treat input that ends early)
+                cfg.update({"comp": conc.COMPRESSIONS[i], "enc": "", "sig": ""})
             if tier == "quick":
                 steps = steps[:8]
             allbytes = (tier == "thorough" and i % 6 == 0)
